@@ -272,17 +272,22 @@ Definition rcu_attempt_shape (c p : N) (nx : next) : Prop :=
   match nx with
   | NGoto (RAlloc c' _ p' _) | NGoto (RInc c' _ p' _) => c' = c /\ p' = p
   | NPush frames (WRcuCas c' _ p' _) => c' = c /\ p' = p /\ exists new fs, frames = fs ++ [WCasLoad c p new]
+  | NPush _ WRcuPanic | NRet RPanic => True      (* the closure panicked: nothing is exchanged *)
   | NPanic _ => True
   | _ => False
   end.
 
-Lemma rcu_after_load cf l c m p d :
-  rcu_attempt_shape c p (snd (resume cf l (WRcuLoad c m) (RGuard p d))).
+Lemma rcu_attempt_ok cf l c m p d : rcu_attempt_shape c p (snd (rcu_attempt cf l c m p d)).
 Proof.
-  cbn. destruct m; cbn; auto.
+  unfold rcu_attempt. destruct m; cbn; auto.
   - destruct (enter_load cf l c) as [[l2 fs]|ps]; cbn; eauto 8.
   - destruct (p =? 0); cbn; auto. destruct (enter_load cf l c) as [[l2 fs]|ps]; cbn; eauto 8.
+  - destruct (k =? 0); cbn; auto. destruct (guard_drop_frames p d); cbn; auto.
 Qed.
+
+Lemma rcu_after_load cf l c m p d :
+  rcu_attempt_shape c p (snd (resume cf l (WRcuLoad c m) (RGuard p d))).
+Proof. apply rcu_attempt_ok. Qed.
 
 Lemma rcu_alloc_step cf s l c m p d x s' l' evs nx :
   exec cf s l (RAlloc c m p d) x = (s', l', evs, nx) ->
@@ -307,15 +312,10 @@ Lemma rcu_after_cas cf l c m p d q dq :
        | NPush _ (WRcuInto _ _) | NPush _ (WRcuRet _) => True
        | _ => False
        end
-  else match nx with
-       | NPush _ (WRcuNext c' _ q' _) => c' = c /\ q' = q
-       | _ => rcu_attempt_shape c q nx
-       end.
+  else (exists fs m', nx = NPush fs (WRcuNext c m' q dq)) \/ rcu_attempt_shape c q nx.
 Proof.
   cbn. destruct (p =? q) eqn:Hpq.
   - destruct (guard_into_frames q dq); [destruct (guard_drop_frames p d)|]; cbn; auto.
-  - destruct (guard_drop_frames p d); cbn; auto.
-    destruct m; cbn; auto.
-    + destruct (enter_load cf l c) as [[l2 fs]|ps]; cbn; eauto 8.
-    + destruct (q =? 0); cbn; auto. destruct (enter_load cf l c) as [[l2 fs]|ps]; cbn; eauto 8.
+  - destruct (guard_drop_frames p d); cbn; eauto.
+    right. apply rcu_attempt_ok.
 Qed.
